@@ -67,4 +67,13 @@ PROPS = {
         "level_text": "Proof that a BUS send is transmitted only to pipes other than the one named by the raw header, unchanged, and reaches every idle other peer; that BUS receive paths never forward; that a STAR member forwards what arrives to all and only its other peers with the hop byte bumped; and, by structural induction over every finite forest (any tree re-rooted at any sender, ids distinct), that flooding with this rule delivers every message to every other member exactly once and never to its sender. The executable machine is compared with protocol/bus, xbus, star, xstar on random histories (forwarding headers naming live / dead / malformed ids, hop bytes 0..8, slow and failing peers) and small real BUS meshes/chains and STAR stars/trees are run end to end.",
         "level_note": COMMON_NOTE + "Queue overflow ('queue space permitting') is part of the machine; concurrent sends in the real topologies are sequentialised by the harness.",
     },
+    "C07": {
+        "obl": ["Obl.Ids"],
+        "sites": ["protocol/surveyor"],
+        "assumptions": ["time.AfterFunc never fires early; the harness clock is monotonic; timers overdue by more than 400 ms have fired",
+                        "survey ids do not wrap around within one scenario (fewer than 2^31 surveys)"],
+        "technique": "Lean 4 state machine for SURVEYOR with timers constrained by the harness's monotonic clock (may fire once due, must have fired once overdue) and a ghost record of every delivered response; inductive invariant over all histories; machine compared step by step with protocol/surveyor through virtual pipes with canonicalised ids and real 60 ms survey times",
+        "level_text": "Proof by induction over all histories (surveys, receives, context opens/closes, responses with current / earlier / foreign / never-issued ids, ids without the request bit, short bodies, timer firings at any admissible moment) that every response handed to the application answered the survey that was its context's current one when that Recv began; that unregistered or malformed ids change nothing; that Recv with no survey in progress fails at once with protocol-state; that a new survey unregisters the old one; that every idle respondent is sent each survey; that the expiry timer never fires early, never fires for survey time 0, and has fired once overdue. The machine is run against the real surveyor with 60 ms survey times and real sleeps across expiry, and an independent oracle checks ids, lateness and promptness.",
+        "level_note": COMMON_NOTE + "Real-time behaviour of time.AfterFunc is assumed, not proved; RESPONDENT's side ('each answer reaches only the surveyor that asked') is C05's theorem reply_to_origin; XSURVEYOR (raw, no survey state) is covered by C16's parse runs.",
+    },
 }
